@@ -3,7 +3,7 @@
    switch arms of xClient.Call, which xClient.SendRaw shares after the repair; the environment is a
    per-server script of dial results and per-attempt outcomes, quantified universally. *)
 From Coq Require Import List Arith Bool.
-From RPCX Require Import XClient.FailMode XClient.FailModeProofs.
+From RPCX Require Import XClient.FailMode XClient.FailModeProofs XClient.Backup XClient.BackupProofs.
 Import ListNotations.
 
 (* For every mode in {fail-fast, fail-try, fail-over}, every retry count, every number of servers,
@@ -39,5 +39,41 @@ Example C10_nonvacuous :
   attempts (x_env r) = [(0, OLost); (2, OOk 42)] /\ x_err r = None /\ x_reply r = Some 42.
 Proof. vm_compute. repeat split. Qed.
 
+(* Fail-backup (XClient/Backup.v): for every script of dial results and outcomes, every cache state and
+   cursor, and both timing choices (the first request answered within the backup latency or not; which of
+   the two requests in flight completes first):
+   (i)   at most two requests are delivered;
+   (ii)  success is returned only for a delivered request that was answered successfully, with that
+         request's reply;
+   (iii) when nothing could be delivered an error is returned. *)
+Theorem C10_backup_contract : forall sc en,
+  let r := xcall_backup sc en in
+  (length (added en (x_env r)) <= 2) /\
+  (x_err r = None -> exists s rep, In (s, OOk rep) (added en (x_env r)) /\ x_reply r = Some rep) /\
+  (added en (x_env r) = [] -> x_err r <> None).
+Proof. exact backup_contract_short. Qed.
+
+(* the second request is sent only after the backup latency passed unanswered *)
+Theorem C10_backup_second_only_after_latency : forall sc en,
+  b_early sc = true ->
+  snd (go_attempt (fst (fst (fst (select_client en))))) <> None ->
+  length (added en (x_env (xcall_backup sc en))) <= 1.
+Proof. exact backup_no_second_when_early. Qed.
+
+(* non-vacuity: 2 servers, the first request (to s1) is slow, the backup (to s0) answers 7 first; and the
+   repaired case: the backup's server refuses the dial, the call waits for the first request's answer *)
+Example C10_backup_nonvacuous :
+  let en := mkEnv [mkSrv false [true] [OOk 7]; mkSrv false [true] [OOk 5]] 0 [] in
+  let r := xcall_backup (mkB false false) en in
+  added en (x_env r) = [(1, OOk 5); (0, OOk 7)] /\ x_err r = None /\ x_reply r = Some 7.
+Proof. vm_compute. repeat split. Qed.
+Example C10_backup_unsendable_backup_waits :
+  let en := mkEnv [mkSrv false [false; false] []; mkSrv false [true] [OOk 5]] 0 [] in
+  let r := xcall_backup (mkB false false) en in
+  added en (x_env r) = [(1, OOk 5)] /\ x_err r = None /\ x_reply r = Some 5.
+Proof. vm_compute. repeat split. Qed.
+
 Print Assumptions C10_call_contract.
+Print Assumptions C10_backup_contract.
+Print Assumptions C10_backup_second_only_after_latency.
 Print Assumptions C10_failover_reselects_differently.
